@@ -152,6 +152,7 @@ func (e *Engine) enterBlock(s *State, f *Frame, probe *probeRec) bool {
 		}
 	}
 	f.ip = nphi
+	e.bindLoopShapeAliases(f, b)
 	body, isHeader := li.body[b]
 	if probe != nil && len(s.stack) == probe.depth {
 		if isHeader && b == probe.header && f.prev != nil && body[f.prev] {
@@ -309,6 +310,7 @@ func (e *Engine) havocLoop(s *State, f *Frame, b *ssa.BasicBlock, nphi int, writ
 			}
 		}
 	}
+	e.bindLoopShapeAliases(f, b)
 	for _, k := range sortedKeys(writes) {
 		p := writes[k]
 		t := e.typeAtPath(p)
